@@ -662,6 +662,11 @@ func (client *client) deregisterBroker(broker *Broker) {
 		// but we really shouldn't have to; once that loop is made better this case can be
 		// removed, and the function generally can be renamed from `deregisterBroker` to
 		// `nextSeedBroker` or something
+		if registered, ok := client.brokers[broker.ID()]; ok && registered != broker {
+			// the id has been re-registered in the meantime (same broker id at a new address): the failure
+			// of the old handle says nothing about the new one
+			return
+		}
 		Logger.Printf("client/brokers deregistered broker #%d at %s", broker.ID(), broker.Addr())
 		delete(client.brokers, broker.ID())
 	}
